@@ -70,7 +70,7 @@ package mdiff
 //@   at after "out = out[:len(out)-1]": assert [C13] len(out) > 0 && len(es) > 0 ==> out[len(out) - 1].LEnd <= cur.LStart && cur.LStart - out[len(out) - 1].LEnd == cur.RStart - out[len(out) - 1].REnd && sameRun(lhs, rhs, out[len(out) - 1].LEnd - 1, out[len(out) - 1].REnd - 1, cur.LStart - out[len(out) - 1].LEnd)
 //@   at return 1: assert [C13] len(out) > 0 ==> len(es) > 0
 //@   at after "out = out[:len(out)-1]": assert [C13] len(out) > 0 && len(es) > 0 ==> len(lhs) + 1 - out[len(out) - 1].LEnd == len(rhs) + 1 - out[len(out) - 1].REnd && sameRun(lhs, rhs, out[len(out) - 1].LEnd - 1, out[len(out) - 1].REnd - 1, len(lhs) + 1 - out[len(out) - 1].LEnd)
-//@   loop 1: invariant [C13] noedits: len(es) == 0 ==> cur.LStart == cur.LEnd && cur.RStart == cur.REnd
+//@   loop 1: invariant [C13] noedits: len(es) == 0 ==> len(out) == 1 && cur.LStart == cur.LEnd && cur.RStart == cur.REnd
 //@   loop 1: invariant [C13] run: lcur - cur.LEnd == rcur - cur.REnd && sameRun(lhs, rhs, cur.LEnd - 1, cur.REnd - 1, lcur - cur.LEnd)
 //@   loop 1: invariant [C13] head: out[0].LStart == out[0].RStart && sameRun(lhs, rhs, 0, 0, out[0].LStart - 1)
 //@   loop 1: invariant [C13] gaps: forall a int, b int :: {out[a], out[b]} 0 <= a && b == a + 1 && b < len(out) ==> out[b].LStart - out[a].LEnd == out[b].RStart - out[a].REnd && sameRun(lhs, rhs, out[a].LEnd - 1, out[a].REnd - 1, out[b].LStart - out[a].LEnd)
